@@ -184,6 +184,29 @@ CHECKS = {
               "each smoothing-frequency setter, deprecated wrapper, targets=None; weight columns; bandwidth limits ordered and bracketing."),
         design_ref="DESIGN.md section 4, C07",
         note=LEVEL_NOTE_N),
+    "C01": dict(
+        engine="Oscillator",
+        technique="TLA+ definition of the exact flow of the oscillator (power series of e^Z, phi1, phi2 with scaling and squaring over the FP carrier, independent of the Nigam-Jennings closed forms); TLC exhaustive on a lattice x 24 regimes with the three entry points in lock-step; TLC trace validation advancing the flow one sample per step",
+        category="model_checking",
+        text=("MC_Oscillator: every record over {-1,0,1/2,2} to length 4 (quick) / 5 (thorough) x T/dt in {0.2,1,5.5,6.5,20,2e4} x xi in "
+              "{0,0.05,0.7,0.999}: the flow satisfies the semigroup law (FlowExact, refinement 2/3/8), ZeroIC, Linear; in every state the last "
+              "sample of (u, v, acc) from response_series, nigam_and_jennings_response and AccSignal.response_series (arrays, lists, tuples) "
+              "is within the statement's tolerance of the model, the third series obeys -(2 xi w v + w^2 u), the entry points agree. "
+              "Trace_Oscillator: recorded calls (n to 400 / 5000, regimes stratified over T/dt in [0.2, 2e4] incl. 5.99/6/6.01, xi in [0, 0.999], "
+              "delayed pulses, leading zero period) validated at every sample."),
+        design_ref="DESIGN.md section 4, C01",
+        note=LEVEL_NOTE_N + "; the exact flow is a truncated power series (remainder < 2^-60) self-checked by the semigroup law, not proved; tolerance as in the statement with the drift term relative to max(peak, natural scale)"),
+    "C02": dict(
+        engine="Oscillator",
+        technique="the C02 laws as invariants of the TLA+ oscillator model (TLC exhaustive) and as relation events between recorded executions validated by a TLC trace spec",
+        category="model_checking",
+        text=("MC_Oscillator: Linear (product machine a, b, 3a - b/2), FlowExact (refinement by 2, 3, 8), ZeroIC hold of the model for every "
+              "lattice record and regime. Trace_Oscillator (relations): linearity per series and period, spectra homogeneous / sign invariant "
+              "(pseudo and true), causality at a random split, shift by k zeros, permutation and batching of the period list (also "
+              "integer-typed containers with a leading 0), refinement by r in 2..8 within the C01 tolerance of both steps, spectra not "
+              "decreasing under refinement."),
+        design_ref="DESIGN.md section 4, C02",
+        note=LEVEL_NOTE_N + "; 'never decrease' for S_a only where T >= 6 dt at both steps (below, the PGA rule of C03 applies)"),
 }
 
 NOT_YET = {}
